@@ -843,7 +843,7 @@ theorem renderBlk_step (env : Env) (fuel : Nat) (ih : IH env fuel) (b : Blk) (st
         · exact hr
       · rename_i _ xs hne heq
         generalize hfs : (Frame.seq { items := xs, mapping := o.mapping, prefix_ := o.prefix_ } ::
-            (match src with | .name n => [Frame.dict [(n, v)]] | .expr _ => [])) = fs
+            (match src with | .name n => [Frame.dict [(n, seqCacheVal v)]] | .expr _ => [])) = fs
         have hfsc : ∀ f ∈ fs, ConsF f := by
           intro f hf
           rw [← hfs] at hf
